@@ -170,7 +170,40 @@ func (c *Check) handlerDiscipline(rule string) {
 	okH := len(hc) == 1 && okE
 	if okH {
 		h := hc[0]
-		okH = inLoop(h.Block()) && instrDominates(est[0].(ssa.Instruction), h.(ssa.Instruction)) && handlerIsResultOf(h.Common().Value, est[0].(ssa.Value))
+		// a call made in a helper the handler was handed to is judged where
+		// the session loop calls that helper, and its callee is the argument
+		// passed there
+		site := ssa.Instruction(h.(ssa.Instruction))
+		callee := h.Common().Value
+		for depth := 0; depth < 3 && site.Parent() != inner; depth++ {
+			var up *ssa.Call
+			n := 0
+			seenG := map[*ssa.Function]bool{}
+			for _, g := range append([]*ssa.Function{inner}, deepFuncs(inner)...) {
+				if seenG[g] {
+					continue
+				}
+				seenG[g] = true
+				ownInstrs(g, func(x ssa.Instruction) {
+					if cl, isC := x.(*ssa.Call); isC && p.helperCallee(x) == site.Parent() {
+						up = cl
+						n++
+					}
+				})
+			}
+			if n != 1 {
+				break
+			}
+			if pr, isP := callee.(*ssa.Parameter); isP {
+				for k, q := range site.Parent().Params {
+					if q == pr && k < len(up.Call.Args) {
+						callee = up.Call.Args[k]
+					}
+				}
+			}
+			site = up
+		}
+		okH = site.Parent() == inner && inLoop(site.Block()) && instrDominates(est[0].(ssa.Instruction), site) && handlerIsResultOf(callee, est[0].(ssa.Value))
 		if _, isGo := h.(*ssa.Go); isGo {
 			okH = false
 		}
